@@ -138,6 +138,70 @@ theorem Frontier.expand {F : List (List Nat)} (c0 : List Nat) (F' : List (List N
         exact Or.inr ⟨t0, List.mem_append_left _ List.mem_cons_self, Anc.trans ha hm⟩
     · exact Or.inr ⟨u, List.mem_append_right _ hu, ha⟩
 
+/-- a path from `c0` goes through one of its successors -/
+theorem Anc.via_succ {c0 c : List Nat} (h : Anc c0 c) : ∃ t ∈ succs c0, t = c ∨ Anc t c := by
+  induction h with
+  | step hs => exact ⟨_, hs, Or.inl rfl⟩
+  | trans _ h2 ih =>
+    obtain ⟨t, ht, hc⟩ := ih
+    rcases hc with hc | hc
+    · subst hc; exact ⟨t, ht, Or.inr (Anc.step h2)⟩
+    · exact ⟨t, ht, Or.inr (Anc.trans hc h2)⟩
+
+/-- `c` is covered by the frontier: expanded, pending, or a descendant of a pending tuple -/
+def Cov (F : List (List Nat)) (c : List Nat) : Prop := Done F c ∨ c ∈ F ∨ ∃ u ∈ F, Anc u c
+
+theorem Cov.perm {F F' : List (List Nat)} (hp : F'.Perm F) {c : List Nat} (h : Cov F c) : Cov F' c := by
+  rcases h with h | h | ⟨u, hu, ha⟩
+  · exact Or.inl (h.perm hp)
+  · exact Or.inr (Or.inl (hp.mem_iff.mpr h))
+  · exact Or.inr (Or.inr ⟨u, hp.mem_iff.mpr hu, ha⟩)
+
+/-- expanding `c0` into ALL its successors keeps every tuple covered -/
+theorem Cov.expand {F : List (List Nat)} (c0 : List Nat) (F' : List (List Nat)) (hF : Frontier (c0 :: F))
+    (hp : F'.Perm (succs c0 ++ F)) {c : List Nat} (h : Cov (c0 :: F) c) : Cov F' c := by
+  obtain ⟨_, e2, e3⟩ := Frontier.expand c0 F' hF hp
+  rcases h with h | h | ⟨u, hu, ha⟩
+  · exact Or.inl (e3 c h)
+  · rcases List.mem_cons.mp h with h | h
+    · subst h; exact Or.inl e2
+    · exact Or.inr (Or.inl (hp.mem_iff.mpr (List.mem_append_right _ h)))
+  · rcases List.mem_cons.mp hu with hu | hu
+    · subst hu
+      obtain ⟨t, ht, hc⟩ := ha.via_succ
+      rcases hc with hc | hc
+      · subst hc; exact Or.inr (Or.inl (hp.mem_iff.mpr (List.mem_append_left _ ht)))
+      · exact Or.inr (Or.inr ⟨t, hp.mem_iff.mpr (List.mem_append_left _ ht), hc⟩)
+    · exact Or.inr (Or.inr ⟨u, hp.mem_iff.mpr (List.mem_append_right _ hu), ha⟩)
+
+theorem parent_length : ∀ t : List Nat, (parent t).length = t.length
+  | [] => rfl
+  | 0 :: xs => by simp [parent, parent_length xs]
+  | (x + 1) :: xs => by simp [parent]
+
+theorem eq_replicate_of_not_nonzero : ∀ t : List Nat, nonzero t = false → t = List.replicate t.length 0
+  | [], _ => rfl
+  | x :: xs, h => by
+    simp only [nonzero, List.any_cons, Bool.or_eq_false_iff, bne_eq_false_iff_eq] at h
+    have := eq_replicate_of_not_nonzero xs (by simpa [nonzero] using h.2)
+    simp only [List.length_cons, List.replicate_succ, List.cons.injEq]
+    exact ⟨h.1, this⟩
+
+/-- **the frontier rule reaches every index tuple**: every tuple is the root `(0,…,0)` or a descendant of it -/
+theorem root_anc (c : List Nat) : c = List.replicate c.length 0 ∨ Anc (List.replicate c.length 0) c := by
+  generalize hn : c.sum = n
+  induction n using Nat.strongRecOn generalizing c with
+  | _ n ih =>
+    cases hz : nonzero c with
+    | false => exact Or.inl (eq_replicate_of_not_nonzero c hz)
+    | true =>
+      have hc := succs_cover c hz
+      have hs := succs_sum _ _ hc
+      have hl := parent_length c
+      rcases ih (parent c).sum (by omega) (parent c) rfl with h | h
+      · right; rw [← hl]; rw [h] at hc; exact Anc.step (by simpa using hc)
+      · right; rw [← hl]; exact Anc.trans h hc
+
 /-- adding a fresh ROOT tuple (all zeros) to a frontier in which it does not occur -/
 theorem Frontier.add_root {F : List (List Nat)} (z : List Nat) (hz : nonzero z = false) (hF : Frontier F) (hn : z ∉ F)
     (hall : ∀ t ∈ F, nonzero t = false) : Frontier (z :: F) := by
